@@ -26,6 +26,9 @@ pub enum Stmt {
     /// a call of an `#[inline(always)]` function of this file that itself contains an inlined call
     /// followed by a statement of its own
     CallInl,
+    /// recursion whose recursive call is the last thing its line does (`n + tail(n - 1)`): the
+    /// first statement boundary reached in the caller after a return is the closing brace again
+    TailRec(u8),
 }
 
 impl Stmt {
@@ -43,6 +46,7 @@ impl Stmt {
             Stmt::Sleep(n) => format!("z{n}"),
             Stmt::CallTargets => "ct".into(),
             Stmt::CallInl => "n".into(),
+            Stmt::TailRec(n) => format!("t{n}"),
         }
     }
 }
@@ -320,6 +324,16 @@ pub fn generate(name: &str, body: &[Stmt]) -> Program {
         s.l("    o", Some("mix.4"));
         s.l("}", None);
     }
+    if needs(|s| matches!(s, Stmt::TailRec(_))) {
+        s.l("#[inline(never)]", None);
+        s.l("fn tail(n: u64) -> u64 {", None);
+        s.l("    if n == 0 {", Some("tail.1"));
+        s.l("        return 3;", Some("tail.2"));
+        s.l("    }", None);
+        s.l("    n + tail(n - 1)", Some("tail.3"));
+        s.l("}", Some("tail.4"));
+        functions.push("tail".into());
+    }
     let targets = needs(|s| matches!(s, Stmt::CallTargets));
     if targets {
         s.raw(r#"pub static mut LOGN: u64 = 0;
@@ -408,6 +422,9 @@ pub fn c6(a: i64, b: i64, c: i64, d: i64, e: i64, f: i64) {
             }
             Stmt::Rec(n) => {
                 s.l(&format!("    a += rec({n});"), Some(&m("callrec")));
+            }
+            Stmt::TailRec(n) => {
+                s.l(&format!("    a += tail({n});"), Some(&m("calltail")));
             }
             Stmt::CallInl => {
                 s.l("    a = mix(a);", Some(&m("callinl")));
